@@ -334,3 +334,7 @@ class RetryFactory(Contract):
 
 
 CONTRACTS = CONTRACTS + [RetryFactory()]
+
+
+def extra_contracts():
+    return mimic_variants("C14")
